@@ -490,7 +490,9 @@ class ConsumerGroup(Entity):
                 self._committed_offsets[consumer_name] = {}
 
             for pid, offset in offsets.items():
-                self._committed_offsets[consumer_name][pid] = offset
+                # Commits may arrive out of order: never move a position backwards.
+                current = self._committed_offsets[consumer_name].get(pid, 0)
+                self._committed_offsets[consumer_name][pid] = max(current, offset)
 
             self._commits += 1
             return None
